@@ -273,9 +273,13 @@ func (e *Engine) vrtCall(name string, f *ssa.Function, args []Val) (Val, bool) {
 		e.out = nil
 		return nil, true
 	case "Captured":
+		// everything printed up to the interpreter's runtime error report (as the native capture)
 		var out Val = Str("")
 		for _, ev := range e.out {
-			if ev.kind == "print" {
+			if strings.HasPrefix(ev.format, "RUNTIME ERROR") {
+				break
+			}
+			if ev.kind == "print" || ev.kind == "println" || ev.kind == "printf" {
 				out = concat(out, ev.text)
 			}
 		}
@@ -449,6 +453,35 @@ func init() {
 		"strings.ReplaceAll": func(e *Engine, f *ssa.Function, a []Val) Val {
 			return e.strReplaceAll(a[0], a[1], a[2])
 		},
+		"strings.Replace": func(e *Engine, f *ssa.Function, a []Val) Val {
+			n := e.argInt(a[3], "Replace n")
+			if ss, ok := a[0].(Str); ok {
+				if os, ok := a[1].(Str); ok {
+					if ns, ok := a[2].(Str); ok {
+						return Str(strings.Replace(string(ss), string(os), string(ns), n))
+					}
+				}
+			}
+			if n < 0 {
+				return e.strReplaceAll(a[0], a[1], a[2])
+			}
+			hay, nd, rp := bytesOf(a[0]), bytesOf(a[1]), bytesOf(a[2])
+			if len(nd) == 0 {
+				e.unsupported("Replace with empty pattern")
+			}
+			var out []Sc
+			for i := 0; i < len(hay); {
+				if n > 0 && i+len(nd) <= len(hay) && e.decide(e.matchAt(hay, i, nd)) {
+					out = append(out, rp...)
+					i += len(nd)
+					n--
+					continue
+				}
+				out = append(out, hay[i])
+				i++
+			}
+			return mkStr(out)
+		},
 		"strings.Repeat": func(e *Engine, f *ssa.Function, a []Val) Val {
 			n := e.argInt(a[1], "Repeat count")
 			if n < 0 {
@@ -550,10 +583,21 @@ func init() {
 			}
 			return Tu{Sc{w: 64, c: math.Float64bits(v)}, If{}}
 		},
-		"strconv.cloneString":       func(e *Engine, f *ssa.Function, a []Val) Val { return a[0] },
+		"strconv.cloneString":        func(e *Engine, f *ssa.Function, a []Val) Val { return a[0] },
 		"internal/stringslite.Clone": func(e *Engine, f *ssa.Function, a []Val) Val { return a[0] },
-		"strings.Clone":             func(e *Engine, f *ssa.Function, a []Val) Val { return a[0] },
-		"flag.Parse":                func(e *Engine, f *ssa.Function, a []Val) Val { return nil },
+		"strings.Clone":              func(e *Engine, f *ssa.Function, a []Val) Val { return a[0] },
+		"internal/bytealg.MakeNoZero": func(e *Engine, f *ssa.Function, a []Val) Val {
+			n := e.argInt(a[0], "MakeNoZero")
+			b := make([]Val, n)
+			for i := range b {
+				b[i] = u8(0)
+			}
+			return Sl{a: b}
+		},
+		"internal/abi.NoEscape":        func(e *Engine, f *ssa.Function, a []Val) Val { return a[0] },
+		"(*strings.Builder).copyCheck": func(e *Engine, f *ssa.Function, a []Val) Val { return nil },
+		"flag.NArg":                    func(e *Engine, f *ssa.Function, a []Val) Val { return isc(0) },
+		"flag.Parse":                   func(e *Engine, f *ssa.Function, a []Val) Val { return nil },
 		"flag.Bool": func(e *Engine, f *ssa.Function, a []Val) Val {
 			var z Val = bsc(false)
 			return &z
